@@ -58,16 +58,16 @@ def _coord_calls(fn, nodes):
 def _bound_ok(rels, ckey, bound_method, lower, segkey):
     """is there a relation ckey >= <...bound_method(...)> (lower) / <= (upper) among rels?"""
     want = (">=", ">", "==") if lower else ("<=", "<", "==")
-    pat = re.compile(r"(^|[.>*])" + re.escape(bound_method) + r"\(([^()]*|.*)\)$")
+    # the bound must be exactly <this data set>.bound_method(<bin's own segment>?) - nothing added to it
+    pat = re.compile(r"^(this|\*this\.proj_data_info_sptr|\*this\.get_proj_data_info_sptr\(\))\." + re.escape(bound_method) + r"\((.*)\)$")
     for a, op, b in rels:
         if a != ckey or op not in want:
             continue
-        if not pat.search(b):
+        m = pat.match(b)
+        if not m:
             continue
-        # the bound must be the one of this data set (called on this / its proj_data_info), and for
-        # per-segment bounds the argument must be the bin's own segment
-        inner = b[b.rfind(bound_method + "(") + len(bound_method) + 1 : -1]
-        if inner and segkey is not None and inner != segkey:
+        inner = m.group(2)
+        if inner and (segkey is None or inner != segkey):
             continue
         return True
     return False
